@@ -4,11 +4,18 @@
 (* Written from the property statement and from [variant] of the C++        *)
 (* standard, not from xtl's code.                                           *)
 (*                                                                          *)
-(* Two variants v[1], v[2] over the alternatives                            *)
-(*     0 = int (trivial, not lifetime-tracked)                              *)
-(*     1 = NT  (copy may throw, move is noexcept)                           *)
-(*     2 = TM, 3 = TM2 (copy and move may throw)                            *)
-(* live in raw storage, so that construction and destruction are calls.     *)
+(* Two variants v[1], v[2] over four alternatives 0..3 live in raw storage, *)
+(* so that construction and destruction are calls.  Which alternatives are  *)
+(* lifetime-tracked payload types and which of them move without throwing   *)
+(* is the alternative SET (constants TrackedAlts, NTMAlts of                *)
+(* VariantLifetime):                                                        *)
+(*   mixed  <int, NT, TM, TM2>   NT: copy may throw, move noexcept;         *)
+(*                               TM, TM2: copy and move may throw           *)
+(*   triv   <int, Tv1, Tv2, Tv3> every alternative trivially copyable and   *)
+(*                               destructible (mpark's TriviallyAvailable   *)
+(*                               code paths); nothing can throw             *)
+(*   td     <TD, NT, TM, int>    alternative 0 is a payload type whose      *)
+(*                               default constructor may throw              *)
 (* A public call is a bracket  Begin(c, a, fuse) ... element events ... End *)
 (* (DESIGN.md Appendix B).  Between Begin and End the implementation may    *)
 (* perform any element operations the lifetime rules allow (module          *)
@@ -82,7 +89,7 @@ AbsOf(s) == IF ~s.p THEN Absent
 StConsistent(s) ==
     /\ s.p => s.index \in -1..3
     /\ s = StOf(AbsOf(s))
-    /\ (s.p /\ s.index = 0) => s.id = 0
+    /\ (s.p /\ s.index \notin TrackedAlts) => s.id = 0
 
 (* the storage of variant k holds exactly the payload the observers report *)
 Matches(k, r) ==
@@ -96,13 +103,14 @@ Matches(k, r) ==
 (* Calls.  a.k is the variant the call is made on, a.o the other operand.   *)
 Ctors     == {"CtorDefault", "CtorValue", "CtorCopy", "CtorMove"}
 Mutators  == Ctors \cup {"Destroy", "Emplace", "ConvAssign", "CopyAssign", "MoveAssign", "Swap"}
-Observers == {"Get", "XGet", "GetIf", "Rel", "Visit", "XRef"}
-Binary    == {"CtorCopy", "CtorMove", "CopyAssign", "MoveAssign", "Swap", "Rel"}
+Observers == {"Get", "XGet", "GetIf", "Rel", "Visit", "XRef", "Hash", "Mono", "Nest", "Up"}
+Binary    == {"CtorCopy", "CtorMove", "CopyAssign", "MoveAssign", "Swap", "Rel", "Hash"}
+Stateless == {"Visit", "XRef", "Mono", "Nest", "Up"}      \* calls that name no variant through a.k
 Valued    == {"CtorValue", "Emplace", "ConvAssign"}
 
 Involved(c, a) ==
     IF c \in Binary THEN {a.k, a.o}
-    ELSE IF c \in {"Visit", "XRef"} THEN {}
+    ELSE IF c \in Stateless THEN {}
     ELSE IF c = "GetIf" /\ a.null = 1 THEN {}
     ELSE {a.k}
 (* operands passed as const& cannot change *)
@@ -111,12 +119,19 @@ ConstSrc(c, a) == IF c \in {"CtorCopy", "CopyAssign"} THEN {a.o} \ {a.k} ELSE {}
 ArgOK(c, a) ==
     /\ c \in Valued =>
           /\ a.alt \in Alts
-          /\ a.ak \in {"value", "copy", "move", "ilist"}
-          /\ a.alt = 0 => a.ak = "value"
-          /\ a.ak = "ilist" => c # "ConvAssign" /\ a.form \in {"index", "type"}
+          /\ a.ak \in {"value", "copy", "move", "ilist", "multi"}    \* ilist: (initializer_list, arg) ; multi: two arguments
+          /\ a.alt \notin TrackedAlts => a.ak = "value"
+          /\ a.ak \in {"ilist", "multi"} => c # "ConvAssign" /\ a.form \in {"index", "type"}
           /\ c = "CtorValue" => a.form \in {"conv", "index", "type"}
           /\ c = "Emplace" => a.form \in {"index", "type"}
     /\ c \in {"Get", "XGet", "GetIf"} => a.alt \in Alts
+    /\ c = "Visit" => a.r \in {0, 1} /\ a.rv \in {0, 1} /\ (a.r = 1 => Len(a.ks) >= 1)
+    /\ c = "XRef" => /\ a.held \in {"ref", "cref", "other"} /\ a.want \in {"ref", "cref"} /\ a.list \in {2, 3, 4} /\ a.w \in {0, 1}
+                     /\ a.list = 4 => a.want = "cref"                       \* xget<int&> does not compile on a variant without closure<int&>
+                     /\ a.w = 1 => a.want = "ref" /\ a.ref \in {"l", "r"}    \* writing needs a non-const reference
+    /\ c = "Mono" => a.q \in {"eq", "ne", "lt", "gt", "le", "ge", "hash", "default"}
+    /\ c = "Nest" => a.alt \in Alts /\ a.mode \in {"copy", "move", "swap", "visit"}
+    /\ c = "Up" => a.t \in {"overload", "visitret"} /\ a.alt \in 0..2 /\ a.val \in Nat
 
 (* C++ preconditions of the harness (which object exists) *)
 Pre(c, a) ==
@@ -125,11 +140,11 @@ Pre(c, a) ==
     /\ CASE c \in {"CtorDefault", "CtorValue"} -> ~Present(v[a.k])
          [] c \in {"CtorCopy", "CtorMove"}     -> a.k # a.o /\ ~Present(v[a.k]) /\ Present(v[a.o])
          [] c \in {"Destroy", "Emplace", "ConvAssign", "Get", "XGet"} -> Present(v[a.k])
-         [] c \in {"CopyAssign", "Swap", "Rel"} -> Present(v[a.k]) /\ Present(v[a.o])
+         [] c \in {"CopyAssign", "Swap", "Rel", "Hash"} -> Present(v[a.k]) /\ Present(v[a.o])
          [] c = "MoveAssign"                   -> a.k # a.o /\ Present(v[a.k]) /\ Present(v[a.o])
          [] c = "GetIf"                        -> a.null = 1 \/ Present(v[a.k])
          [] c = "Visit"                        -> \A i \in 1..Len(a.ks) : Present(v[a.ks[i]])
-         [] c = "XRef"                         -> TRUE
+         [] c \in {"XRef", "Mono", "Nest", "Up"} -> TRUE
 
 (* what a move leaves behind: an int is copied, a payload object is MOVED *)
 MovedFrom(r) == IF r.s = "holds" /\ r.alt \in TrackedAlts THEN [r EXCEPT !.val = MOVED] ELSE r
@@ -164,8 +179,22 @@ RelRes(rel, x, y) ==
 RECURSIVE SumSeq(_)
 SumSeq(s) == IF Len(s) = 0 THEN 0 ELSE Head(s) + SumSeq(Tail(s))
 
-(* closure-aware xget: which closure alternative xget<want> reads *)
-XRefTarget(want, list) == IF want = "ref" THEN "ref" ELSE IF list = 3 THEN "cref" ELSE "ref"
+(* closure-aware xget on a variant of closure wrappers.  list: 2 = <closure<int&>, closure<double&>>,        *)
+(* 3 = <closure<int&>, closure<const int&>, closure<double&>>, 4 = <closure<const int&>, closure<const double&>> *)
+(* (the variant types of test_xvariant.cpp); xget<want> reads the closure alternative XRefTarget.               *)
+XRefTarget(want, list) == IF want = "ref" THEN "ref" ELSE IF list \in {3, 4} THEN "cref" ELSE "ref"
+
+(* [variant.monostate.relops], hash<monostate>; a default-constructed variant<monostate, T> holds alternative 0 *)
+MonoRes(q) == CASE q \in {"eq", "le", "ge", "hash", "default"} -> TRUE [] OTHER -> FALSE
+
+(* a variant of variants  W = variant<int, V>: outer index, inner index and inner value of the destination   *)
+(* (d) and of the source (s) after copying / moving / swapping / visiting an outer variant that holds an       *)
+(* inner variant holding (alt, val); "swap" exchanges it with an outer variant holding the int 7              *)
+NestRes(a) ==
+    LET left == IF a.mode = "move" /\ a.alt \in TrackedAlts THEN MOVED ELSE a.val IN
+    IF a.mode = "swap"
+    THEN [oi |-> 1, ii |-> a.alt, iv |-> a.val, soi |-> 0, sii |-> -1, siv |-> 7]
+    ELSE [oi |-> 1, ii |-> a.alt, iv |-> a.val, soi |-> 1, sii |-> a.alt, siv |-> left]
 
 (* the value an observer returns / the exception it throws *)
 ObsRes(c, a) ==
@@ -178,13 +207,33 @@ ObsRes(c, a) ==
       [] c = "Rel" -> Ok([b |-> RelRes(a.rel, v[a.k], v[a.o])])
       [] c = "Visit" ->
             IF \E i \in 1..Len(a.ks) : IsVl(v[a.ks[i]]) THEN Exc("bad_variant_access")
-            ELSE LET alts == [i \in 1..Len(a.ks) |-> v[a.ks[i]].alt] IN
+            ELSE LET alts == [i \in 1..Len(a.ks) |-> v[a.ks[i]].alt]
+                     vals == [i \in 1..Len(a.ks) |-> v[a.ks[i]].val] IN
                  Ok([alts |-> alts,
-                     vals |-> [i \in 1..Len(a.ks) |-> v[a.ks[i]].val],
+                     vals |-> vals,
                      ids  |-> [i \in 1..Len(a.ks) |-> v[a.ks[i]].id],
-                     ret  |-> Len(a.ks) + SumSeq(alts)])
+                     rv   |-> [i \in 1..Len(a.ks) |-> a.rv],                \* rvalue variants are visited as rvalues
+                     \* a.r = 1: the visitor returns a reference to the first visited value; visit returns that very reference
+                     alias |-> a.r = 1,
+                     ret  |-> IF a.r = 1 THEN vals[1] ELSE Len(a.ks) + SumSeq(alts)])
       [] c = "XRef" ->
-            IF a.held = XRefTarget(a.want, a.list) THEN Ok([alias |-> TRUE, val |-> a.val]) ELSE Exc("bad_variant_access")
+            \* a.w = 1: the caller writes val + 1 through the returned reference; `after` is the referent read directly
+            IF a.held = XRefTarget(a.want, a.list) THEN Ok([alias |-> TRUE, val |-> a.val, after |-> a.val + a.w])
+            ELSE Exc("bad_variant_access")
+      [] c = "Mono" -> Ok([b |-> MonoRes(a.q)])
+      [] c = "Nest" -> Ok(NestRes(a))
+      \* the visit scenarios of test_xvariant.cpp on U = variant<int, double, std::string> holding alternative a.alt made from a.val
+      \* (int val / double val + 0.5 / a string of val characters):
+      \*   overload  visit(make_overload(f_int, f_double, f_string), u): exactly the lambda for the held alternative runs (i), on the held value (x)
+      \*   visitret  visit([](auto&& arg) -> U { return arg + arg; }, u): the result holds the same alternative, doubled
+      [] c = "Up" -> Ok([i |-> a.alt, x |-> IF a.t = "overload" THEN a.val ELSE 2 * a.val + (IF a.alt = 1 THEN 1 ELSE 0)])
+
+(* std::hash<variant>: the value is unspecified, but equal variants hash equally ([unord.hash]).  The harness  *)
+(* hashes both operands in one call and reports whether the two results are equal.                             *)
+HashOK(a, res) == res.exc = "none" /\ res.val.same \in BOOLEAN /\ (RelRes("eq", v[a.k], v[a.o]) => res.val.same)
+ObsResOK(c, a, res) == IF c = "Hash" THEN HashOK(a, res) ELSE res = ObsRes(c, a)
+ObsResSet(c, a) == IF c = "Hash" THEN {Ok([same |-> TRUE])} \cup (IF RelRes("eq", v[a.k], v[a.o]) THEN {} ELSE {Ok([same |-> FALSE])})
+                   ELSE {ObsRes(c, a)}
 
 (* the value a mutator returns: emplace returns a reference to the new contained value *)
 MutRes(c, a, post) == IF c = "Emplace" THEN Ok([id |-> post[a.k].id, val |-> a.val]) ELSE Void
@@ -206,7 +255,7 @@ ThrowOK(c, a, post) ==
 (* [variant.assign]: T&& / const variant& / variant&& use emplace directly iff  *)
 (* is_nothrow_constructible<Tj, Arg> or !is_nothrow_move_constructible<Tj>,     *)
 (* otherwise a temporary is built first (strong guarantee).                     *)
-NothrowCtorFrom(alt, ak) == alt = 0 \/ (ak = "move" /\ NoThrowMove(alt))
+NothrowCtorFrom(alt, ak) == alt \notin TrackedAlts \/ (ak = "move" /\ NoThrowMove(alt))
 TempFirst(alt, ak)       == ~(NothrowCtorFrom(alt, ak) \/ ~NoThrowMove(alt))
 Same(x, y)               == NoId(x) = NoId(y)
 VlOrOld(j, post)         == IsVl(post[j]) \/ Same(post[j], v[j])
@@ -301,7 +350,7 @@ EndOK(res, st) ==
        ELSE /\ ~thrown                                       \* an element exception is not swallowed
             /\ \A j \in K : /\ NoId(post[j]) = Expect(c, a)[j]
                             /\ (j \notin Involved(c, a) \/ c \in Observers) => post[j] = v[j]
-            /\ res = IF c \in Observers THEN ObsRes(c, a) ELSE MutRes(c, a, post)
+            /\ IF c \in Observers THEN ObsResOK(c, a, res) ELSE res = MutRes(c, a, post)
 
 End(res, st) ==
     /\ Open
@@ -329,7 +378,7 @@ PostCands(k) ==
     ELSE {Holds(obj[i].alt, obj[i].val, i) : i \in LiveIn(k)}
 ResCands(post) ==
     {Void, Exc("injected")}
-      \cup (IF call.c \in Observers THEN {ObsRes(call.c, call.a)} ELSE {MutRes(call.c, call.a, post)})
+      \cup (IF call.c \in Observers THEN ObsResSet(call.c, call.a) ELSE {MutRes(call.c, call.a, post)})
 
 NextBegin == \E cl \in CallSet, f \in 0..MaxFuse : Begin(cl.c, cl.a, f)
 MCAlts == {cl.a.alt : cl \in {x \in CallSet : x.c \in Valued}} \cap TrackedAlts   \* alternatives the explored calls can create
@@ -348,7 +397,7 @@ Next ==
                    LET post == <<p1, p2>> IN \E res \in ResCands(post) : End(res, <<StOf(p1), StOf(p2)>>)
 Spec == Init /\ [][Next]_vars
 
-MCCalls == MCCallsOver(Vals)
+MCCalls == MCCallsOver(Vals, TrackedAlts)
 
 ----------------------------------------------------------------------------
 (* Theorems of the specification itself (they guard the oracle).            *)
